@@ -220,7 +220,13 @@ func nodeOracle(r *rand.Rand, n int, tier string, infile string) (cases int, fai
 				if len(h) > 40 {
 					h = h[len(h)-40:]
 				}
-				fails = append(fails, "C20 "+fmt.Sprintf(f, a...)+" history=["+strings.Join(h, "; ")+"]")
+				// what a list of peers must look like (only nearer peers, nearest first, complete) is C19's business as
+				// well as C20's: those verdicts carry no tag; the rest speaks for C20
+				tag := "C20 "
+				if strings.Contains(f, "closer") || strings.Contains(f, "ordered") || strings.HasPrefix(f, "%s lists") {
+					tag = ""
+				}
+				fails = append(fails, tag+fmt.Sprintf(f, a...)+" history=["+strings.Join(h, "; ")+"]")
 			}
 		}
 		var local []byte
